@@ -14,6 +14,8 @@ var checks = map[string]struct {
 	fn    func(*vkit.Run)
 }{
 	"C26": {"exploration", c26},
+	"C48": {"exploration", c48},
+	"C07": {"exploration", c07},
 }
 
 func main() {
